@@ -250,6 +250,43 @@ def marginal_grid(ctx, rule="C16.param-flow"):
     ctx.require(n >= 2, f"only {n} quadrature calls found in BaseState.x_quad_values / p_quad_values")
 
 
+def outer_rank(ctx, rule="C16.layout"):
+    from .common_guard import path_facts, rel
+    ctx.explain(f"{rule}: (rank of an outer product) a density matrix over k modes has one (row, column) pair of axes per mode - the layout of "
+                "thewalrus' density_matrix, of the Fock classes and of the bosonic class. `np.outer` FLATTENS its arguments: where a state "
+                "class returns np.outer(psi, conj psi) of a state vector that may span several modes (thewalrus state_vector), the result is "
+                "reshaped to the per-mode axes and the axes are interleaved (reshape + transpose / einsum) before it is returned, unless the "
+                "path is restricted to a single mode. Otherwise the same method returns a (c^k, c^k) matrix for pure states and a "
+                "(c, c, ..., c) tensor for mixed ones.")
+    n = 0
+    for cn in ("BaseGaussianState", "BaseBosonicState", "BaseFockState"):
+        cls = ctx.tree.cls(ST, cn)
+        for name, f in sorted(cls.methods.items()):
+            cfg = None
+            for r in walk_no_nested(f.node):
+                if not isinstance(r, ast.Return) or r.value is None:
+                    continue
+                d = derives(f.node, r.value)
+                outer = [c for c in d.call_nodes if (dotted(c.func) or "").split(".")[-1] == "outer"]
+                if not outer or not d.has_call("twq.state_vector", "state_vector"):
+                    continue
+                n += 1
+                cfg = cfg or cfg_of(f.node)
+                names = {(dotted(c.func) or "").split(".")[-1] for c in d.call_nodes}
+                shaped = ("einsum" in names) or ("reshape" in names and names & {"transpose", "moveaxis", "swapaxes"})
+                single = False
+                ids = cfg.find(r)
+                for a, v in (path_facts(cfg, ids[0]) if ids else []):
+                    r_ = rel(a, v)
+                    if r_ is not None and r_[0] == "==" and any(isinstance(x, ast.Constant) and x.value == 1 for x in (r_[1], r_[2])) and \
+                            any("len(" in ast.unparse(x) for x in (r_[1], r_[2])):
+                        single = True
+                ok = bool(shaped) or single
+                ctx.ob(rule, f.site, ok, "" if ok else f"`{ast.unparse(outer[0])[:50]}` is returned as it is: a (c^k, c^k) matrix for k modes, while the "
+                       "other return of the method has one pair of axes per mode", role="outer-rank", line=r.lineno)
+    ctx.require(n >= 1, "no state method returns an outer product of a thewalrus state vector (BaseGaussianState.reduced_dm did)")
+
+
 def rules(ctx):
     walrus_ordering(ctx)
     quadrature_convention(ctx)
@@ -259,6 +296,7 @@ def rules(ctx):
     sibling_counts(ctx)
     param_flow(ctx)
     marginal_grid(ctx)
+    outer_rank(ctx)
     A.alias_mutation(ctx, "C16.alias", ST, ("BaseGaussianState", "BaseBosonicState", "BaseFockState"))
     ctx.floor("C16.alias", 6)
     Hb.state_objects(ctx, "C16.dim")
